@@ -293,28 +293,24 @@ Proof.
   rewrite as_id_vid_ok by lia. cbn [bind]. rewrite G. reflexivity.
 Qed.
 
-(** PARTIAL for registrations: the dealer invariant bounds registration ids by
-    the generator from above only; the statement carries [0 < id] (every id the
-    generator hands out is positive) as a hypothesis. *)
-Theorem listed_registrations_fetchable_partial : forall r k0 d2 kw2 o2 kind x,
+(** every id in the answer of wamp.registration.list is accepted by wamp.registration.get *)
+Theorem listed_registrations_fetchable : forall r k0 d2 kw2 o2 kind x,
     realm_wf r -> ids_below k0 r -> k0 <= max_idN ->
     In x (match reg_ids_by (r_dealer r) kind with VList l => l | _ => [] end) ->
-    exists id, x = vid id /\
-      (0 < id ->
-       exists rg, nget (d_regs (r_dealer r)) id = Some rg /\
-                  meta_call r "wamp.registration.get" d2 [x] kw2 o2 = (r, MYield [reg_dict rg] [], None)).
+    exists id rg, x = vid id /\ nget (d_regs (r_dealer r)) id = Some rg /\
+                  meta_call r "wamp.registration.get" d2 [x] kw2 o2 = (r, MYield [reg_dict rg] [], None).
 Proof.
   intros r k0 d2 kw2 o2 kind x W I Hk Hx. unfold reg_ids_by, ids_value in Hx.
   apply in_map_iff in Hx. destruct Hx as (id & <- & Hid).
   apply in_map_iff in Hid. destruct Hid as ([p id'] & E & Hin). cbn in E. subst id'.
-  exists id. split; [reflexivity|]. intros Hpos.
   pose proof (rw_dealer r W) as Wd.
   assert (G : sget (d_map (r_dealer r) kind) p = Some id).
   { apply (In_aget String.eqb String.eqb_spec); [apply (rw_mapkeys _ (wf_regs _ _ Wd))|exact Hin]. }
   destruct (rw_map _ (wf_regs _ _ Wd) _ _ _ G) as (rg & Hr & _).
-  exists rg. split; [exact Hr|].
+  exists id, rg. split; [reflexivity|]. split; [exact Hr|].
   rewrite meta_registration_get. cbn [arg0 nth_error bind].
   destruct (rw_reg _ (wf_regs _ _ Wd) _ _ Hr) as (_ & _ & Hle). destruct I as (_ & I2 & _).
+  pose proof (proj2 (proj2 (rw_metaregs r W)) id rg Hr) as Hpos.
   rewrite as_id_vid_ok by lia. cbn [bind]. rewrite Hr. reflexivity.
 Qed.
 
